@@ -47,11 +47,12 @@ Fixpoint bytes_units32 (e : endian) (b : list N) : option (list N) :=
 Definition bytes_units (e : endian) (w : width) (b : list N) : option (list N) :=
   match w with W8 => Some b | W16 => bytes_units16 e b | W32 => bytes_units32 e b end.
 
-(* the text of a byte stream in a given UTF type: strict decoding (the transcoder of the UTF family) *)
+(* the text of a byte stream in a given UTF type: strict decoding (the transcoder of the UTF family; a same-width pass
+   copies, hence the explicit test for scalar values) *)
 Definition rj_decode (t : rj_utf) (b : list N) : option (list N) :=
   let (w, e) := rj_scheme t in
   match bytes_units e w b with
-  | Some u => let r := transcode w W32 ThrowError [] u [] in match r_code r with Success => Some (r_out r) | _ => None end
+  | Some u => let r := transcode w W32 ThrowError [] u [] in match r_code r with Success => if forallb scalarb (r_out r) then Some (r_out r) else None | _ => None end
   | None => None
   end.
 
